@@ -51,6 +51,8 @@ type harnessSpec struct {
 	ExpectSat  bool // witness: at least one violation expected (vacuity guard)
 	NoMerge    bool
 	LazyAll    bool
+	BigMode    string
+	BigWidth   int
 	Reach      []string
 	MaxSteps   int
 	Replace    map[string]string
@@ -339,6 +341,11 @@ func parseSpec(fn *ssa.Function, pkg *ssa.Package, rel string) (*harnessSpec, er
 			sp.AllowPanic = true
 		case "expect":
 			sp.ExpectSat = len(f) > 1 && f[1] == "sat"
+		case "big":
+			sp.BigMode = f[1]
+			if len(f) > 2 {
+				sp.BigWidth, _ = strconv.Atoi(f[2])
+			}
 		case "lazy":
 			sp.LazyAll = true
 		case "nomerge":
@@ -427,6 +434,7 @@ func runItem(prog *ssa.Program, it item) (res *itemResult) {
 	ex.AllowPanic = it.H.AllowPanic
 	ex.NoMerge = it.H.NoMerge
 	ex.LazyAll = it.H.LazyAll
+	ex.BigMode, ex.BigWidth = it.H.BigMode, it.H.BigWidth
 	for k, v := range it.H.Replace {
 		if !strings.Contains(k, ".") {
 			k = it.H.Pkg.Pkg.Path() + "." + k
